@@ -15,12 +15,14 @@ struct Parsed {
 	uint8_t endian = 1;
 	bool hasBS = false;
 	std::vector<std::string> types;
+	std::vector<size_t> typeNameOff;  // offset of the 4-byte length of each type name
 	std::vector<uint16_t> typeIdx;
 	bool hasSizes = false;
 	std::vector<uint32_t> sizes;
 	size_t sizeTableOff = 0;
 	bool hasStrings = false;
 	uint32_t numStrings = 0, maxStringLen = 0;
+	size_t stringTableOff = 0;
 	std::vector<std::string> strings;
 	std::vector<uint32_t> groups;
 	size_t headerEnd = 0;             // offset of the first block payload
@@ -86,6 +88,7 @@ inline Parsed parse(const std::string& b) {
 	}
 	uint16_t nt = r.get<uint16_t>();
 	for (unsigned i = 0; i < nt && !r.bad; i++) {
+		p.typeNameOff.push_back(r.o);
 		uint32_t l = r.get<uint32_t>();
 		if (l > 4096) { p.err = "absurd type name"; return p; }
 		p.types.push_back(r.bytes(l));
@@ -98,6 +101,7 @@ inline Parsed parse(const std::string& b) {
 	}
 	if (p.ver >= 0x14010001) {
 		p.hasStrings = true;
+		p.stringTableOff = r.o;
 		p.numStrings = r.get<uint32_t>();
 		p.maxStringLen = r.get<uint32_t>();
 		for (uint32_t i = 0; i < p.numStrings && !r.bad; i++) {
